@@ -157,3 +157,18 @@ Proof.
       now rewrite fs_lookup_write_same in E.
   - now rewrite !fold_write_lookup.
 Qed.
+
+(* ---------- C02: package declarations and import paths: no segment of a module path is written as a bare keyword ---------- *)
+Definition escaped_segment (s : str) : Prop := is_keyword s = false \/ exists k, is_keyword k = true /\ s = bq :: k ++ [bq].
+
+Theorem escape_path_segments p :
+  escape_path p = join ["."%char] (map escape (split_ch "."%char p)) /\
+  Forall escaped_segment (map escape (split_ch "."%char p)).
+Proof.
+  split; [reflexivity|]. apply Forall_forall. intros s Hs. apply in_map_iff in Hs. destruct Hs as (x & <- & _).
+  unfold escaped_segment, escape. destruct (is_keyword x) eqn:E; [right; exists x; auto|left; exact E].
+Qed.
+
+Theorem module_header_escapes_path nc package_info :
+  exists pre, module_header nc package_info = pre ++ K"package " ++ escape_path (convert nc false package_info) ++ NL.
+Proof. unfold module_header. eexists. reflexivity. Qed.
